@@ -779,6 +779,10 @@ class Interp:
                 parts.append(val)
                 symbolic_ints = True
                 continue
+            if type(val).__name__ == "SFmt" and v.conversion == -1 and v.format_spec is None:
+                parts.extend(val.parts)
+                symbolic_ints = True
+                continue
             if not ops.deep_concrete(val):
                 opaque = True
                 continue
